@@ -39,8 +39,10 @@ VALUES = {
     "max_preconditioner_dim": [1, 2, 1024, 0, -1],
     "precondition_frequency": [1, 2, 5, 0, -1],
     "start_preconditioning_step": [-1, 1, 2, 5, 7, 0, -2],
-    "inv_root_override": [0, 1, 4, [2], [1, 2], [0, 3], [], -1, [1, -1]],
-    "ignored_dims": [[], [0], [1, 0]],
+    # "t:..." = the same override given as a tuple (documented type: int | Sequence[int])
+    "inv_root_override": [0, 1, 4, [2], [1, 2], [0, 3], [], -1, [1, -1], "t:1,2", "t:2,-1", "t:"],
+    # "default" = preconditioner_config argument omitted (the library's default config object)
+    "ignored_dims": [[], [0], [1, 0], "default"],
 }
 BASELINES = [
     dict(lr=0.01, beta1=0.9, beta2=1.0, beta3=-1.0, epsilon=1e-12, momentum=0.0, dampening=0.0, weight_decay=0.0, max_preconditioner_dim=1024, precondition_frequency=1, start_preconditioning_step=-1, inv_root_override=0, ignored_dims=[]),
@@ -68,12 +70,18 @@ def expected(k):
     ok &= k["precondition_frequency"] >= 1
     s = k["start_preconditioning_step"]
     ok &= (s == -1) or (s >= k["precondition_frequency"])
-    ov = k["inv_root_override"]
-    ok &= all(e >= 0 for e in ov) if isinstance(ov, list) else ov >= 0
-    ok &= (k["ignored_dims"] == []) or (ov == 0 and not isinstance(ov, list))
+    ov = decode_override(k["inv_root_override"])
+    ok &= all(e >= 0 for e in ov) if isinstance(ov, (list, tuple)) else ov >= 0
+    ok &= (k["ignored_dims"] in ([], "default")) or (ov == 0 and not isinstance(ov, (list, tuple)))
     b3 = k["beta1"] if k["beta3"] == -1 else k["beta3"]
     st = k["precondition_frequency"] if s == -1 else s
     return bool(ok), b3, st
+
+
+def decode_override(ov):
+    if isinstance(ov, str):
+        return tuple(int(x) for x in ov[2:].split(",") if x)
+    return ov
 
 
 def construct(torch, k):
@@ -81,10 +89,11 @@ def construct(torch, k):
     from distributed_shampoo.shampoo_types import ShampooPreconditionerConfig
 
     p = torch.nn.Parameter(torch.ones(2, 3))
+    pc = {} if k["ignored_dims"] == "default" else {"preconditioner_config": ShampooPreconditionerConfig(ignored_dims=list(k["ignored_dims"]))}
     return DistributedShampoo(
         [p], lr=k["lr"], betas=(k["beta1"], k["beta2"]), beta3=k["beta3"], epsilon=k["epsilon"], momentum=k["momentum"], dampening=k["dampening"], weight_decay=k["weight_decay"],
         max_preconditioner_dim=k["max_preconditioner_dim"], precondition_frequency=k["precondition_frequency"], start_preconditioning_step=k["start_preconditioning_step"],
-        inv_root_override=k["inv_root_override"], preconditioner_config=ShampooPreconditionerConfig(ignored_dims=list(k["ignored_dims"])),
+        inv_root_override=decode_override(k["inv_root_override"]), **pc,
     )
 
 
@@ -269,7 +278,7 @@ def replay(case):
     import torch
 
     if "kwargs" in case:
-        k = {a: (float(b) if isinstance(b, str) else b) for a, b in case["kwargs"].items()}
+        k = {a: (float(b) if isinstance(b, str) and a not in ("inv_root_override", "ignored_dims") else b) for a, b in case["kwargs"].items()}
         return check(torch, k)
     bad, _ = check_configs(torch)
     key = json.dumps(case, sort_keys=True, default=str)  # NaN-safe comparison
